@@ -138,10 +138,17 @@ class Env(object):
             def checkSerializing(s):
                 return (0, None)                 # SERIALIZER_STATE.NOT_SERIALIZING
 
+            def setTransmissionData(s, data):
+                return False
+
             def serialize(s, data, entry_id):
                 s.serialized = getattr(s, "serialized", []) + [(data, entry_id)]
         self.Ser = Ser
         self.real_mono = self.so.monotonicTime
+        try:
+            self.so.logger.setLevel(100)      # swallowed exceptions of __loadDumpFile are logged: keep stderr quiet
+        except Exception:
+            pass
 
     # ---------------------------------------------------------------------------------------
     def P(self, name):
